@@ -4,7 +4,7 @@ package main
 // literals (PolyformNormal{} / PolyformOcclusion{} with a nil embedded *PolyformTexture) are generated and corresponded:
 // c06.doc answers "panic" / "err" / the document; c06.topo compares the theorem predicates topoCarried / modeIndexOK /
 // docModeCountOK, evaluated by the driver on the IMPLEMENTATION's document and buffer, with what gltf_topo_carried_iff /
-// gltf_mode_index_iff predict from the scene (computed here) — the third value is recomputed here from the parsed document.
+// gltf_mode_index_iff / gltf_doc_mode_count_iff predict from the scene (computed here).
 
 import (
 	"bytes"
@@ -258,7 +258,12 @@ func (c *Ctx) c6TopoFixedCases() {
 // the c06.topo line (and the oracle c06.holds.topo where the theorems predict true)
 func (c *Ctx) c6TopoLines(s *c6Scene, st string, o *c6Out, binTok string) {
 	tp, cf := s.topoExpect()
-	c.Emit("c06.topo", st+" "+o.dtok+" "+binTok, b2s(tp)+" "+b2s(cf)+" "+b2s(o.doc.modeCountOK()))
+	// third value: gltf_doc_mode_count_iff predicts docModeCountOK (document alone) = cf; the Go recomputation from the parsed
+	// document is a cross-check of the harness itself
+	if o.doc.modeCountOK() != cf {
+		c.Note("topo.GO-DOC-CHECK-DISAGREES-WITH-PREDICTION")
+	}
+	c.Emit("c06.topo", st+" "+o.dtok+" "+binTok, b2s(tp)+" "+b2s(cf)+" "+b2s(cf))
 	if tp && cf {
 		c.Note("topo.mode-faithful")
 		if len(o.bin) < 4000 {
